@@ -19,7 +19,7 @@ import gen
 from common import CONFIG_INI, Quiet, coq_bad, listlit, oulit, pmap, ulit
 
 IDKEYS = ["id", "Id", "ID", "name", "Name", "NAME"]
-IDVALS = ["a", "b", "c", "p1", "first-one", "x_2", "B", "my path", "line check 2"]      # an identity may be several words
+IDVALS = ["a", "b", "c", "p1", "first-one", "x_2", "B", "my path", "line check 2", "first", "foo", "from", "to", "bar"]      # an identity may be several words
 
 
 def gen_path(rng, k):
